@@ -37,8 +37,8 @@ def plan(tier):
         spec = [(1, 1, P.GRID, 2, 6, durs), (2, 1, P.GRID, 2, 6, durs), (3, 1, P.SMALL, 1, 4, (0.0, 2 * T)),
                 (4, 0, P.SMALL, 1, 3, (0.0, 2 * T))]
     else:
-        spec = [(1, 1, P.GRID, 6, 6, durs), (2, 2, P.GRID, 2, 6, durs), (3, 1, P.GRID, 2, 6, durs),
-                (4, 1, P.SMALL, 1, 4, (0.0, 2 * T)), (5, 0, P.SMALL, 1, 3, (0.0, 2 * T))]
+        spec = [(1, 1, P.GRID, 6, 6, durs), (2, 2, P.GRID, 2, 6, durs), (3, 1, P.GRID, 1, 4, (0.0, 2 * T)),
+                (4, 1, P.SMALL, 1, 3, (0.0, 2 * T)), (5, 0, P.SMALL, 1, 3, (0.0,))]
     for n, maxc, grid, maxf, hor, ds in spec:
         envs = [(f, d) for f in P.fail_scripts(maxf, hor) for d in ds]
         gapsets = list(itertools.product(grid, repeat=n - 1))
